@@ -463,7 +463,17 @@ def r3_wiring(ctx, pf: ClassInfo, call: FuncInfo) -> List[ClassInfo]:
       return ctx.index.lookup(local_imports[head] + d[len(head):])
     return ctx.index.resolve(mi, d)
 
-  for ret in ast.walk(call.node):
+  all_rets = [r for m in pf.methods.values() for r in ast.walk(m.node)]
+  for m in pf.methods.values():
+    for x in ast.walk(m.node):
+      if isinstance(x, ast.ImportFrom):
+        for a in x.names:
+          local_imports[a.asname or a.name] = f'{x.module}.{a.name}'
+      if isinstance(x, ast.Assign) and isinstance(x.value, ast.Call) and (dotted(x.value.func) or '').endswith('partial'):
+        for t in x.targets:
+          if isinstance(t, ast.Name):
+            partials[t.id] = x.value
+  for ret in all_rets:
     if not (isinstance(ret, ast.Return) and isinstance(ret.value, ast.Call)):
       continue
     pol = dotted(ret.value.func) or ''
